@@ -11,6 +11,7 @@ import (
 	"errors"
 	"fmt"
 	"os"
+	"strings"
 	"sync"
 	"testing"
 	"time"
@@ -51,6 +52,9 @@ func TestDialPolicyDoH(t *testing.T) {
 		rrHTTPS("mixed.example", 60, 1, "", svcParams{ECH: polLists["E1"]}),
 		rrHTTPS("mixed.example", 60, 0, "", svcParams{ECH: polLists["E2"]}),
 		rrA("mixed.example", 60, "10.8.0.1"),
+		// selftarget: a service-mode record that spells out its own owner name as TargetName (usually written ".")
+		rrHTTPS("selftarget.example", 60, 1, "selftarget.example", svcParams{ECH: polLists["E1"]}),
+		rrA("selftarget.example", 60, "10.9.0.1"),
 		// noech: service record without ech
 		rrHTTPS("noech.example", 60, 1, "", svcParams{ALPN: []string{"h2"}}),
 		rrA("noech.example", 60, "10.5.0.1"),
@@ -60,15 +64,19 @@ func TestDialPolicyDoH(t *testing.T) {
 	// address -> abstract ECH value its record carries
 	recECH := map[string]string{
 		"10.1.0.1:443": "nil", "10.2.0.9:8441": "E1", "10.2.0.1:8442": "E2", "10.3.0.1:443": "E1", "10.4.0.1:443": "nil", "10.5.0.1:443": "nil",
-		"10.6.0.1:8452": "E2", "10.7.0.1:443": "E2", "10.8.0.1:443": "E1",
+		"10.6.0.1:8452": "E2", "10.7.0.1:443": "E2", "10.8.0.1:443": "E1", "10.9.0.1:443": "E1",
 	}
 	w := newNDWriter(t, out)
 	defer w.Close()
-	for _, host := range []string{"plain.example", "svc.example", "aliased.example", "cnamed.example", "noech.example", "deadtarget.example", "deadplain.example", "mixed.example"} {
+	for _, host := range []string{"plain.example", "svc.example", "aliased.example", "cnamed.example", "noech.example", "deadtarget.example", "deadplain.example", "mixed.example", "selftarget.example"} {
 		for _, form := range []string{"host", "hostport"} {
 			for _, csn := range []string{"", "caller-sn.example"} {
 				for _, cech := range []string{"nil", "Ec"} {
 					for _, req := range []bool{false, true} {
+						longPub := ""
+						if req && (len(host)+len(form)+len(csn))%2 == 0 {
+							longPub = strings.Repeat("p", 300) // a PublicName that cannot be encoded: no bootstrap list, and no attempt without one
+						}
 						res, err := ech.NewResolver(srv.url())
 						if err != nil {
 							t.Fatal(err)
@@ -77,6 +85,7 @@ func TestDialPolicyDoH(t *testing.T) {
 						var calls []Ev
 						d := &ech.Dialer[*polConn]{
 							RequireECH: req, Resolver: res, MaxConcurrency: 1, ConcurrencyDelay: time.Millisecond, Timeout: time.Second,
+							PublicName: longPub,
 							DialFunc: func(ctx context.Context, network, addr string, tc *tls.Config) (*polConn, error) {
 								mu.Lock()
 								calls = append(calls, Ev{"addr": addr, "sn": tc.ServerName, "ech": classifyECH(tc.EncryptedClientHelloConfigList, "")})
